@@ -165,3 +165,97 @@ CHECKS['C13'] = VariantCheck('C13', lambda d: True,
     'One Model for all variants: every history is run on ConcurrentHeapRB, LocalHeapRB, ConcurrentStackRB, LocalStackRB (split and split_mut) and compared, '
     'step by step, with the Model and with the other variants. Theorems: the Model has a single step function (Props/C13.v states what is proved at model level).',
     propfiles=['Props/C13.v'])
+
+
+# ------------------------------------------------------------------------------------------- C16
+class SendCheck:
+    prop = 'C16'
+    def gen(self, ctx):
+        rc, out = common.sh(['python3', os.path.join(common.ROOT, 'tools', 'extract_facts.py')])
+        ctx.notes['extract_facts'] = out.strip().split('\n')
+        return rc == 0
+
+    def model_matrix(self, ctx):
+        """is_send / is_sync of the Coq model over the regenerated clauses, evaluated by coqc."""
+        src = ('From Coq Require Import List Bool. Import ListNotations.\n'
+               'Require Import MRB.Model.SendSync MRB.gen.SendClauses.\n'
+               'Definition row (t : wty) := map (fun c => map (fun s => map (fun y => (is_send clauses c s y t, is_sync clauses c s y t)) bools) bools) bools.\n'
+               'Eval vm_compute in map row all_wty.\n')
+        p = os.path.join(ctx.work, 'matrix.v')
+        open(p, 'w').write(src)
+        with common.Lock('coq'):
+            rc, out = ctx._make(['gen/SendClauses.vo', 'Model/SendSync.vo'])
+            if rc != 0: return None, out
+            rc, out = common.sh(['coqc', '-Q', common.COQ, 'MRB', p], cwd=ctx.work)
+        if rc != 0: return None, out
+        vals = re.findall(r'\((true|false),\s*(true|false)\)', out)
+        names = [f'{w} {i}' for i in ('Prod', 'Work', 'Cons') for w in ('Plain', 'Async', 'Det', 'ADet')]
+        if len(vals) != len(names) * 8: return None, 'unexpected matrix output:\n' + out
+        m = {}
+        k = 0
+        for n in names:
+            for c in (1, 0):
+                for s in (1, 0):
+                    for y in (1, 0):
+                        m[(n, c, s, y)] = (int(vals[k][0] == 'true'), int(vals[k][1] == 'true')); k += 1
+        return m, out
+
+    def run(self, ctx):
+        self.gen(ctx)
+        bindir, log = ctx.build_harness(('sendprobe',))
+        if bindir is None:
+            ctx.violation('the probe crate does not build against the current /repo tree', '## cargo build failed\n' + log[-4000:], no_input=True)
+            return ctx.finish('proof', {'explanation': 'build failed'})
+        ok, log = ctx.check_proofs(['Props/C16.v'])
+        rc, out = common.sh([os.path.join(bindir, 'sendprobe')])
+        rows = []
+        for l in out.split('\n'):
+            m = re.match(r'(\w+) (\w+) conc=(\d) item_send=(\d) item_sync=(\d) => send=(\d) sync=(\d)\s+# (.*)', l)
+            if m: rows.append((m.group(1), m.group(2), int(m.group(3)), int(m.group(4)), int(m.group(5)), int(m.group(6)), int(m.group(7)), m.group(8)))
+        bad = [r for r in rows if (r[5] == 1 and (r[2] == 0 or r[3] == 0)) or r[6] == 1 or (r[0] == 'Ref' and r[5] == 1)]
+        mm, mout = self.model_matrix(ctx)
+        mismatch = []
+        if mm is not None:
+            for r in rows:
+                if r[0] == 'Ref': continue
+                exp = mm[(f'{r[0]} {r[1]}', r[2], r[3], r[4])]
+                if exp != (r[5], r[6]): mismatch.append((r, exp))
+        if bad:
+            r = bad[0]
+            what = 'is Sync' if r[6] == 1 else ('can be shared by reference across threads' if r[0] == 'Ref' else 'is Send')
+            prog = (f'// {r[7]} {what} although ' + ('it belongs to a local buffer' if r[2] == 0 else 'its item type is not Send') + '\n'
+                    'use mutringbuf::*; use mutringbuf::iterators::*;\n'
+                    f'fn assert_send<T: Send>() {{}}\nfn main() {{ assert_send::<{r[7]}>(); /* compiles: the value can be moved into std::thread::spawn */ }}\n')
+            ctx.violation(f'`{r[7]}` {what} (rustc), conc={r[2]} item_send={r[3]} item_sync={r[4]}',
+                          f'## probe row: {r}\n## {len(bad)} offending rows in total; run: ./check C16 --replay <this file>\n' + prog)
+        elif mismatch:
+            r, exp = mismatch[0]
+            ctx.violation(f'the clause model disagrees with rustc on `{r[7]}`: model send/sync = {exp}, rustc = {(r[5], r[6])}',
+                          f'## correspondence S-send (Coq clause model over gen/SendClauses.v vs rustc) no longer checks\n## row: {r}\n', no_input=True)
+        elif mm is None:
+            ctx.violation('the model matrix could not be evaluated', '## coqc output\n' + mout[-3000:], no_input=True)
+        elif not ok:
+            ctx.violation('the closing lemma C16_source_closed over the regenerated impl headers no longer checks',
+                          '## theorem C16_source_closed / C16_send (Props/C16.v) no longer checks; the rustc matrix shows no offending type\n' + log[-3000:] +
+                          '\n## gen/SendClauses.v:\n' + open(os.path.join(common.COQ, 'gen', 'SendClauses.v')).read(), no_input=True)
+        sendable = len([r for r in rows if r[5] == 1])
+        cov = {'evaluations': len(rows), 'distinct_nontrivial': len(set((r[0], r[1], r[2], r[3], r[4]) for r in rows)),
+               'rule': 'one evaluation = one concrete type (wrapper x iterator x buffer variant x item type) whose Send / Sync is decided by rustc and compared with the Coq clause model; '
+                       'distinct = distinct (wrapper, iterator, concurrent?, item Send?, item Sync?) classes', 'exhaustive': True,
+               'samples': [list(r) for r in rows[:3]] + [list(r) for r in rows if r[5] == 1][:2],
+               'sendable_types': sendable, 'offending_types': len(bad), 'model_mismatches': len(mismatch),
+               'explanation': 'Theorems: C16_check_sound, C16_bounds_suffice (for every set of impl headers), C16_source_closed / C16_send over the headers regenerated from the source; '
+                              'tie: extractor (fail-closed) + rustc evaluation of Send/Sync constants on the matrix.'}
+        return ctx.finish('proof', cov)
+
+    def replay(self, ctx, path):
+        bindir, log = ctx.build_harness(('sendprobe',))
+        rc, out = common.sh([os.path.join(bindir, 'sendprobe')])
+        txt = open(path).read()
+        m = re.search(r"## probe row: \('(\w+)', '(\w+)', (\d), (\d), (\d), (\d), (\d), '(.*)'\)", txt)
+        n = 0
+        for l in out.split('\n'):
+            if m and m.group(8) in l: print(l); n += 1
+        return 0 if n else 1
+
+CHECKS['C16'] = SendCheck()
